@@ -11,6 +11,7 @@ import numpy as np
 from rv import core, zoo, monitors, fcsgen
 
 LEVEL = 'exploration'
+LEVEL_TEXT = "Contracts on the ten statistics with pure-Python textbook oracles (fsum, sorted middle, linear-interpolation quartiles, log-domain), tolerance by container dtype, container/spelling equivalence and identities; also in situ in the Excel workflow and under the repository's tests. Exploration."
 TECHNIQUE = 'runtime contracts on the ten statistics with pure-Python textbook oracles + container/spelling equivalence driver'
 RULE = ('matrices N in 1..3000 (quick 1..400) x dtypes {u1,u2,u4,u8 big/little endian as loaded, f4, f8} with ties, '
         'constant columns, positive-only columns x container {ndarray, raw sample, RFI sample, MEF sample} x channel '
